@@ -392,7 +392,7 @@ func FuzzC16(f *testing.F) {
 			return
 		}
 		if err := checkJSONDoc(string(b), false, nil); err != nil {
-			t.Fatalf("C16 violated on %q: %v", b, err)
+			fuzzFail(t, "C16", &C16Case{Doc: b, Subset: false}, err)
 		}
 	})
 }
